@@ -239,6 +239,8 @@ def declared_bounds(env):
 @st.composite
 def lp_models(draw, want=None):
     """want: None | 'optimal' | 'any'.  Returns a model dict (see module docstring)."""
+    if want is None and draw(st.integers(0, 14)) == 0:
+        return draw(view_lp_models())
     env = draw(lp_envs())
     names = sorted(all_var_names(env), key=natural_key)
     n = len(names)
@@ -446,6 +448,42 @@ def lp_models(draw, want=None):
             "flavour": flavour, "forms": sorted(set(forms + f0)),
             "data": {"c": [float(c[nm]) for nm in names], "c0": float(c0),
                      "bounds": [list(bounds[nm]) for nm in names], "xhat": [xhat[nm] for nm in names]}}
+
+
+UNSORTED_VIEWS = [
+    # (matrix size, recipe of a variable-class view whose elements are NOT in natural name order but start with the
+    #  smallest name; element names in view order)
+    (5, ["diag", ["msub", ["mvar", "S"], [3, 0, -1], [0, 5, 2]], "method"], ["S[0,3]", "S[2,2]", "S[1,4]"]),
+    (6, ["diag", ["msub", ["mvar", "S"], [0, 3, None], [None, None, -2]], "function"], ["S[0,5]", "S[1,3]", "S[1,2]"]),
+]
+
+
+@st.composite
+def view_lp_models(draw):
+    """an LP whose variables are exactly the elements of ONE view of a symmetric matrix that is not in natural order:
+    every reduction c @ view covers all columns, so position-by-position shortcuts must not be taken"""
+    size, view, elems = draw(st.sampled_from(UNSORTED_VIEWS))
+    env = {"scalars": [], "vectors": [], "matrices": [{"name": "S", "r": size, "c": size, "sym": True, "lb": 0, "ub": 4}],
+           "params": [], "views": {}}
+    names = sorted(elems, key=natural_key)
+    sense = draw(st.sampled_from(["minimize", "maximize"]))
+    cv = [draw(st.sampled_from([1, 2, 3, -1, -2, 0.5])) for _ in elems]       # coefficients in VIEW order
+    c = dict(zip(elems, cv))
+    c0 = draw(st.sampled_from([0, 0, 2.5]))
+    style = draw(st.sampled_from(["c@x", "x@c", "LinearCombination"]))
+    obj = ["lincomb", cv, view, style]
+    if c0:
+        obj = ["bin", "+", obj, ["const", "pyfloat", c0]] if draw(st.booleans()) else ["bin", "-", obj, ["const", "pyfloat", -c0]]
+    cons = []
+    for _ in range(draw(st.integers(1, 2))):
+        rv = [draw(st.sampled_from([1, 5, 2, 3, 0.5])) for _ in elems]
+        b = float(draw(st.sampled_from([2.5, 4, 6])))
+        r = dict(zip(elems, rv))
+        cons.append({"kind": "scalar", "lhs": ["lincomb", rv, view, draw(st.sampled_from(["c@x", "x@c"]))], "sense": "<=", "rhs": b,
+                     "written": "direct", "rows": [[[float(r[nm]) for nm in names], "<=", b]]})
+    return {"family": "lp", "env": env, "names": names, "objective": obj, "sense": sense, "constraints": cons,
+            "flavour": "feasible", "forms": ["c@unsorted-view"],
+            "data": {"c": [float(c[nm]) for nm in names], "c0": float(c0), "bounds": [[0, 4] for _ in names], "xhat": [0.0 for _ in names]}}
 
 
 def lp_arrays(model):
